@@ -137,6 +137,7 @@ def build_config(topo):
     logic = topo.get("logic", {})
     if logic.get("ball_save"):
         cfg["ball_saves"] = {"bs": {"active_time": "%ss" % logic["ball_save"]["active_time_s"],
+                                    "eject_delay": "%dms" % logic["ball_save"].get("eject_delay_ms", 0),
                                     "balls_to_save": logic["ball_save"].get("balls_to_save", 1),
                                     "auto_launch": logic["ball_save"].get("auto_launch", True),
                                     "enable_events": "ball_started, ev_save_enable"}}
